@@ -168,3 +168,35 @@ Definition run_single (c : bool * bool * bool * Q * list (list (bool * instance)
   let one := fun fs => (single_max_instances fixedS fs,
                         collect (single_sample fixedS uo s fs) (length (lf_idx_list (ds_frames uo fs)))) in
   (one frames, one after).
+
+(* ---- round 5: which channels of the DERIVED targets of a sample carry a keypoint ----
+   confidence_maps.make_multi_confmaps reduces the per-instance maps of a frame with `maximum`, each
+   per-instance map having its missing (NaN) nodes zero-filled BEFORE the reduction
+   (make_confmaps: `nan_to_num`).  So channel j of a BottomUpDataset sample (and the reduction over the
+   centroids of a CentroidDataset sample) is non-zero exactly when SOME row of the sample labels node j:
+     node_labelled j inst    node j of one instance is labelled
+     channel_live rows j     some row labels node j            (bottom-up channel j / centroid channel)
+     multi_channels          the live flags of all channels of a multi-instance sample
+     single_channels         SingleInstanceDataset / generate_confmaps: one channel per (row, node)
+   The harness reads the same flags off the real samples (`cms[0, j].any()`), next to the value
+   clause (a local maximum at the keypoint), for every index of every dataset. *)
+Definition node_labelled (j : nat) (inst : instance) : bool := negb (is_missing (nth j inst None)).
+Definition channel_live (rows : list instance) (j : nat) : bool := existsb (node_labelled j) rows.
+Definition multi_channels (nodes : nat) (rows : list instance) : list bool :=
+  map (channel_live rows) (seq 0 nodes).
+Definition single_channels (nodes : nat) (rows : list instance) : list bool :=
+  flat_map (fun r => map (fun j => node_labelled j r) (seq 0 nodes)) rows.
+Definition row_nodes (rows : list instance) : nat := match rows with r :: _ => length r | [] => O end.
+
+(* (fixedS, run_ds case) -> per index: live flags of the channels of the frame-level multi-instance
+   sample, of the SingleInstanceDataset sample, and of the centered-instance sample *)
+Definition run_presence (c : bool * (bool * option nat * bool * Q * list (list (bool * instance))))
+  : list (list bool) * (list (list bool) * list (list bool)) :=
+  let '(fixedS, (fixed, anchor, uo, s, raw)) := c in
+  let frames := of_raw raw in
+  let nl := length (lf_idx_list (ds_frames uo frames)) in
+  let il := instance_idx_list (ds_frames uo frames) in
+  (map (fun r => multi_channels (row_nodes (fst r)) (fst r)) (collect (frame_sample uo s frames) nl),
+   (map (fun r => single_channels (row_nodes (fst r)) (fst r)) (collect (single_sample fixedS uo s frames) nl),
+    map (fun r => map (fun k => negb (is_missing k)) (snd r))
+        (collect (centered_sample fixed anchor uo s frames) (length il)))).
